@@ -1,6 +1,5 @@
-/- line-protocol driver for C02: `drv_c02 <sub-command>` reads operations on stdin, prints one canonical line per operation.
+/- line-protocol driver for C02: `drv_c02 seq|ctype|contract` (see Driver/FpCmd.lean).
    Core Lean only (nothing imported here may import Mathlib, or the executable will not link). -/
+import ChibiVerif.Driver.FpCmd
 
-def main (args : List String) : IO UInt32 := do
-  IO.eprintln s!"drv_c02: no sub-commands yet (args {args})"
-  return 2
+def main (args : List String) : IO UInt32 := ChibiVerif.Driver.Fp.main args
